@@ -46,6 +46,10 @@ impl Report {
             return;
         }
         self.violation_count += 1;
+        if std::env::var("VERIF_MARK").is_ok() {
+            // debugging aid: program logs go to stdout, so a marker there locates the transaction
+            println!("VIOLATION-MARK {} {}", sig, detail);
+        }
         if self.violations.len() < 40 && self.violations.iter().filter(|v| v.sig == sig).count() < 3 {
             self.violations.push(Violation { prop: prop.to_string(), sig: sig.to_string(), detail });
         }
